@@ -14,6 +14,7 @@ import (
 	"verif/internal/derx"
 	"verif/internal/harness"
 	"verif/internal/pki"
+	"verif/internal/preref"
 	"verif/internal/rfc6962"
 )
 
@@ -260,6 +261,48 @@ func checkEntry(t *testing.T, c Case) harness.Verdict {
 		v.Failf("raw-tbs", "RawTBSCertificate is not the TBS that was signed")
 	}
 
+	// A sibling issuer - same name, same subjectKeyIdentifier selection, another key - issues the same
+	// content directly. "For every issuer": its entry carries ITS key hash on both routes, whatever was
+	// computed before in this process (drawn order: before or after the main issuer).
+	sibling := func() {
+		sibI, err := x509.ParseCertificate(w.SibI)
+		if err != nil {
+			v.Failf("generated-cert-unclean", "sibling issuer does not parse cleanly: %v", err)
+			return
+		}
+		ptbs := w.tbsOf(&c, w.IName, insertExt(w.Content, w.PoisonP, pki.Poison()))
+		ftbs := w.tbsOf(&c, w.IName, insertExt(w.Content, clamp(c.SCTPos, len(w.Content)), pki.SCTList(w.List)))
+		e2, rerr := preref.Transform(ptbs, preref.OIDPoison, nil)
+		if rerr != nil {
+			panic(rerr)
+		}
+		sp, err1 := x509.ParseCertificate(w.wrap(ptbs))
+		sf, err2 := x509.ParseCertificate(w.wrap(ftbs))
+		if err1 != nil || err2 != nil {
+			v.Failf("generated-cert-unclean", "sibling certificates do not parse cleanly: %v / %v", err1, err2)
+			return
+		}
+		sw := &World{KeyHash: sha256Of(w.SibKey.SPKI), E: e2, PIKey: w.PIKey, LeafKey: w.LeafKey}
+		sc := c
+		sc.PreIssuer = false
+		wantS, eerr := rfc6962.EncodeLeaf(rfc6962.Leaf{Timestamp: c.Timestamp, Entry: rfc6962.Entry{Type: rfc6962.PrecertEntry, IssuerKeyHash: sw.KeyHash, TBS: e2}})
+		if eerr != nil {
+			panic(eerr)
+		}
+		leaf, err := ct.MerkleTreeLeafFromChain([]*x509.Certificate{sp, sibI}, ct.PrecertLogEntryType, c.Timestamp)
+		judgeLeaf(&v, sw, &sc, "sibling-fromchain", leaf, err, wantS)
+		leaf, err = ct.MerkleTreeLeafFromRawChain([]ct.ASN1Cert{{Data: sp.Raw}, {Data: w.SibI}}, ct.PrecertLogEntryType, c.Timestamp)
+		judgeLeaf(&v, sw, &sc, "sibling-fromrawchain", leaf, err, wantS)
+		leaf, err = ct.MerkleTreeLeafForEmbeddedSCT([]*x509.Certificate{sf, sibI}, c.Timestamp)
+		judgeLeaf(&v, sw, &sc, "sibling-embedded", leaf, err, wantS)
+	}
+	if c.SiblingFirst {
+		v.Class("sibling-issuer=first")
+		sibling()
+	} else {
+		v.Class("sibling-issuer=after")
+	}
+
 	// ---- oracle (2): all routes give the RFC 6962 leaf for (E, SHA-256(issuer SPKI), ts)
 	want := expectedLeaf(w, c.Timestamp)
 	leaf, err := ct.MerkleTreeLeafFromChain(p.chainP, ct.PrecertLogEntryType, c.Timestamp)
@@ -280,6 +323,10 @@ func checkEntry(t *testing.T, c Case) harness.Verdict {
 		v.Failf("leafhash-embedded-error", "ctutil.LeafHash(final chain, embedded): %v", err)
 	} else if h != wantHash {
 		v.Failf("leafhash-embedded", "ctutil.LeafHash(final chain, embedded) = %x, want %x", h, wantHash)
+	}
+
+	if !c.SiblingFirst {
+		sibling()
 	}
 
 	// ---- oracle (4): not exactly one targeted extension => error; pre-issuer without CT EKU => error
